@@ -1083,3 +1083,8 @@ def r11_10_c01(prog, out):
 @rule("C02", "R11.10", "a map from names to handles outside the managers is kept in step with the manager's map (no second registry)", floor=1)
 def r11_10_c02(prog, out):
     _r11_10(prog, out)
+
+
+@rule("C14", "R11.10", "a map from names to handles outside the managers is kept in step with the manager's map (no second registry)", floor=1)
+def r11_10_c14(prog, out):
+    _r11_10(prog, out)
